@@ -40,8 +40,11 @@ def has_props(pid):
     return os.path.exists(os.path.join(lv.COQ, 'Props', pid + '.v'))
 
 
+PARTIAL_THEOREMS = ('C16',)
+
+
 def level_for(pid):
-    return 'proof' if has_props(pid) else 'translation_validation'
+    return 'proof' if has_props(pid) and pid not in PARTIAL_THEOREMS else 'translation_validation'
 
 
 def proof_step(ck, pid):
@@ -128,6 +131,91 @@ def corpus_items(work, pid):
     return items
 
 
+REPO_GRAMMARS = ['src/frontend/lelwel.llw'] + ['examples/%s/src/%s.llw' % (d, f) for d, f in (
+    ('brainfuck', 'brainfuck'), ('c', 'c'), ('calc', 'calc'), ('json', 'json'), ('l', 'l'), ('lua', 'lua'),
+    ('oberon0', 'oberon0'), ('python2', 'python'), ('toml', 'toml'), ('wgsl', 'wgsl'))]
+
+
+import rust2cmd  # noqa: E402
+
+
+def repo_items(ck, work, n_cases, pairs=False):
+    """the grammars checked into /repo (lelwel's own grammar first): emitted by the current llw, translated,
+    compiled; inputs derived from the typed view.  Read from /repo's working tree on every run."""
+    import dumpgen
+    files = [os.path.join(lv.REPO, f) for f in REPO_GRAMMARS if os.path.exists(os.path.join(lv.REPO, f))]
+    if not files:
+        return []
+    texts = [open(f).read() for f in files]
+    sub = os.path.join(work, 'repo')
+    os.makedirs(sub, exist_ok=True)
+    items = k3.prepare(sub, [None] * len(texts), texts)
+    acc = [it for it in items if it['res'].get('wrote')]
+    k3.build_all(acc)
+    for f, it in zip(files, items):
+        it['repo_file'] = os.path.relpath(f, lv.REPO)
+        if it['res'].get('dump'):
+            it['corpus'] = {'cases': dumpgen.cases_for(it['res']['dump'], ck.rng, n_cases, pairs=pairs)}
+    # lelwel's own parser as it is checked in (src/frontend/generated.rs): the implementation side is that file,
+    # the model side the translation of what the generator emits for src/frontend/lelwel.llw today
+    own = os.path.join(lv.REPO, 'src', 'frontend', 'generated.rs')
+    if items and items[0].get('repo_file') == REPO_GRAMMARS[0] and 'pb' in items[0] and os.path.exists(own):
+        base = items[0]
+        d2 = os.path.join(sub, 'own')
+        os.makedirs(d2, exist_ok=True)
+        shutil.copy(os.path.join(base['dir'], 'out', 'generated.rs'), os.path.join(d2, 'generated.rs'))
+        it2 = {'g': None, 'dir': d2, 'res': base['res'], 'text': base['text'], 'repo_file': 'src/frontend/generated.rs (checked in)'}
+        try:
+            it2['pb'] = lv.build_parser(d2, base['res'], impl_source=own)
+            it2['corpus'] = {'cases': dumpgen.cases_for(base['res']['dump'], ck.rng, 3 * n_cases, pairs=pairs)}
+            import rusttok
+            it2['token_diff'] = rusttok.diff(open(os.path.join(d2, 'generated.rs')).read(), open(own).read(), 3)
+        except rust2cmd.TranslateError as e:
+            it2['terror'] = str(e)
+        except Exception as e:  # noqa
+            it2['error'] = repr(e)
+        items.append(it2)
+    return items
+
+
+def frontend_parser_tie(ck, work, n_cases):
+    """K3 on lelwel's own parser as checked in (src/frontend/generated.rs) against the model run on the translation
+    of what the generator emits for src/frontend/lelwel.llw: result kinds, node vectors, diagnostics; the ghost must
+    stay defined (then the theorems of C01/C02/C06/C08 apply to that run) and the parser must neither panic nor hang."""
+    import dumpgen
+    items = repo_items(ck, work, 4)
+    own = [it for it in items if it.get('repo_file', '').startswith('src/frontend/generated.rs')]
+    out = {'cases': 0, 'ghost_defined': 0, 'problems': [], 'token_diff_vs_regenerated': None, 'result_kinds': {}}
+    if not own or 'pb' not in own[0] or not own[0]['pb'].rustc_ok:
+        why = (own[0].get('terror') or own[0].get('error') or own[0]['pb'].rustc_err[-400:]) if own else 'lelwel.llw was not accepted or could not be translated'
+        out['problems'].append({'what': 'the front-end parser could not be tied to the model: %s' % why})
+        return out
+    it = own[0]
+    out['token_diff_vs_regenerated'] = it.get('token_diff')
+    dump = it['res']['dump']
+    cases = dumpgen.cases_for(dump, ck.rng, n_cases)
+    toks = [t['name'] for t in dump['tokens']] + ['Error']
+    for _ in range(n_cases // 2):
+        cases.append((cases[0][0], [ck.rng.choice(toks) for _ in range(ck.rng.randint(1, 25))], ''.join(ck.rng.choice('01') for _ in range(4))))
+    kinds = collections.Counter()
+    for (case, impl, model, cmp_) in k3.run_cases(it, cases):
+        out['cases'] += 1
+        kinds[impl['r']] += 1
+        if impl['r'] != 'ok':
+            out['problems'].append({'entry': case[0], 'tokens': case[1], 'bits': case[2], 'what': 'lelwel\'s own parser: %s on this token sequence' % impl['r']})
+        elif cmp_ is not None:
+            out['problems'].append({'entry': case[0], 'tokens': case[1], 'bits': case[2], 'what': 'K3 (front-end parser vs model): ' + str(cmp_)[:400], 'correspondence': True})
+        elif model.get('gv') is False:
+            out['problems'].append({'entry': case[0], 'tokens': case[1], 'bits': case[2], 'what': 'the builder discipline (ghost) is violated in lelwel\'s own parser on this token sequence'})
+        else:
+            out['ghost_defined'] += 1
+            o = k3.oracle_c01(it['pb'], case[1], impl) or k3.oracle_c02(it['pb'], case[1], impl)
+            if o:
+                out['problems'].append({'entry': case[0], 'tokens': case[1], 'bits': case[2], 'what': 'lelwel\'s own parser: ' + o})
+    out['result_kinds'] = dict(kinds)
+    return out
+
+
 def std_cases(ck, it, n, maxlen=30):
     """inputs for one grammar item"""
     if it.get('corpus') is not None:
@@ -159,7 +247,7 @@ def report_build_problems(ck, items, pid):
 
 # ------------------------------------------------------------------ C01 / C02 (tree properties)
 
-def tree_check(work, pid, oracle, level_text, gen_opts=None, need=None, cases_fn=None, with_k1=True, n_quick=(40, 40), n_thorough=(600, 120), maxlen=30, prefilter=None):
+def tree_check(work, pid, oracle, level_text, gen_opts=None, need=None, cases_fn=None, with_k1=True, n_quick=(40, 40), n_thorough=(600, 120), maxlen=30, prefilter=None, with_repo=False):
     ck = lv.Check(pid, level_for(pid))
     quick = ck.tier == 'quick'
     st = proof_step(ck, pid)
@@ -183,6 +271,8 @@ def tree_check(work, pid, oracle, level_text, gen_opts=None, need=None, cases_fn
     # ---- K3: generated parsers
     n_g, n_in = n_quick if quick else n_thorough
     citems = corpus_items(work, pid)
+    ritems = repo_items(ck, work, 10 if quick else 60, pairs=(pid == 'C16')) if with_repo else []
+    citems = ritems + citems
     good, all_items = gen_items(ck, work, n_g, opts=gen_opts, need=need)
     run_items = [it for it in citems if 'pb' in it and it['pb'].rustc_ok] + good
     if prefilter:
@@ -270,6 +360,8 @@ def tree_check(work, pid, oracle, level_text, gen_opts=None, need=None, cases_fn
         'trusted_base': lv.TRUSTED_BASE,
         'theorems': st['theorems'],
         'explanation': level_text,
+        'repo_grammars': [it['repo_file'] for it in ritems if 'pb' in it and it['pb'].rustc_ok],
+        'frontend_parser_token_diff_vs_regenerated': next((it.get('token_diff') for it in ritems if 'token_diff' in it), None),
         'programs': len(run_items), 'evaluations': evals + len(hs), 'distinct_nontrivial': len(distinct) + k1stats['valid_complete'],
         'rule': 'K3: random mostly-LL(1) grammars accepted by /repo (features below) x sentences, mutants, truncations, random strings, runs, with skipped/Error tokens; non-trivial = parse returned and tree has >2 nodes, distinct by (grammar, entry, tokens, oracle bits). K1: random mostly-valid builder histories; non-trivial = valid history closed with close_root whose reference tree flattens to the concrete vector',
         'disagreements_checked': evals + len(hs),
@@ -290,12 +382,12 @@ def tree_check(work, pid, oracle, level_text, gen_opts=None, need=None, cases_fn
 
 def check_C01(work, args):
     tree_check(work, 'C01', lambda it, case, impl, model: k3.oracle_c01(it['pb'], case[1], impl),
-               'lossless: theorems over Cst.v/ABuild.v/Runtime.v/Exec.v (see Props/C01.v) + K1/K3 correspondence + direct walk oracle')
+               'lossless: theorems over Cst.v/ABuild.v/Runtime.v/Exec.v (see Props/C01.v) + K1/K3 correspondence + direct walk oracle', with_repo=True)
 
 
 def check_C02(work, args):
     tree_check(work, 'C02', lambda it, case, impl, model: k3.oracle_c02(it['pb'], case[1], impl),
-               'well-formed tree: refinement of the abstract builder for all valid histories (Props/C02.v) + K1/K3 + direct structural oracle')
+               'well-formed tree: refinement of the abstract builder for all valid histories (Props/C02.v) + K1/K3 + direct structural oracle', with_repo=True)
 
 
 # ------------------------------------------------------------------ C09 / C10 / C14 (analysis properties)
@@ -528,14 +620,14 @@ def cases_c03(ck, it, n):
 def check_C03(work, args):
     tree_check(work, 'C03', oracles.oracle_c03,
                'totality: K3 correspondence (Exec.v on the translated program vs the compiled parser, incl. fuel exhaustion vs watchdog) + catch_unwind/watchdog oracle',
-               gen_opts=dict(parts=0.7, nrules=(2, 6)), cases_fn=cases_c03, with_k1=False, prefilter=oracles.productive,
+               gen_opts=dict(parts=0.7, nrules=(2, 6)), cases_fn=cases_c03, with_k1=False, prefilter=oracles.productive, with_repo=True,
                n_quick=(40, 30), n_thorough=(500, 120))
 
 
 def check_C04(work, args):
     tree_check(work, 'C04', oracles.oracle_c04,
                'no diagnostic iff sentence: K3 correspondence + Earley membership / prioritised reference interpreter',
-               gen_opts=dict(pred_true_only=True, assertion=0.0, choice=0.5, nrules=(2, 5)), with_k1=False, maxlen=16,
+               gen_opts=dict(pred_true_only=True, assertion=0.0, choice=0.5, nrules=(2, 5)), with_k1=False, maxlen=16, with_repo=True,
                prefilter=lambda it: not ({'pred_user', 'assert'} & oracles.grammar_features(it['res']['dump'])))
 
 
@@ -543,7 +635,7 @@ def check_C05(work, args):
     import known as kn
     tree_check(work, 'C05', oracles.oracle_c05,
                'derivation tree with node operators: K3 correspondence + reference interpreter (textbook sets, value semantics)',
-               gen_opts=dict(empty_rule=0.0, marker=0.5, rename=0.4, elide=0.4, action=0.4, whole_create=0.4), with_k1=False, maxlen=16,
+               gen_opts=dict(empty_rule=0.0, marker=0.5, rename=0.4, elide=0.4, action=0.4, whole_create=0.4), with_k1=False, maxlen=16, with_repo=True,
                prefilter=lambda it: 'empty_rule' not in oracles.grammar_features(it['res']['dump'])
                and not kn.crossing_or_stale_markers(it['res']['dump']) and not kn.creation_in_choice_prefix(it['res']['dump']))
 
@@ -551,7 +643,7 @@ def check_C05(work, args):
 def check_C06(work, args):
     tree_check(work, 'C06', oracles.oracle_c06,
                'first error at the first offending token, strictly increasing positions: K3 correspondence + Earley viable-prefix oracle',
-               gen_opts=dict(pred=0.0, assertion=0.0, choice=0.0), with_k1=False, maxlen=16,
+               gen_opts=dict(pred=0.0, assertion=0.0, choice=0.0), with_k1=False, maxlen=16, with_repo=True,
                prefilter=lambda it: not ({'pred_user', 'pred_true', 'assert', 'choice'} & oracles.grammar_features(it['res']['dump']))
                and oracles.productive(it))
 
@@ -559,7 +651,7 @@ def check_C06(work, args):
 def check_C07(work, args):
     tree_check(work, 'C07', oracles.oracle_c07,
                'precedence and associativity: K2/K3 correspondence + definitional precedence-consistency oracle + reference precedence tree',
-               gen_opts=dict(pratt=1.0, nrules=(2, 4), choice=0.05, marker=0.05, elide=0.05, ret=0.0), with_k1=False, maxlen=24,
+               gen_opts=dict(pratt=1.0, nrules=(2, 4), choice=0.05, marker=0.05, elide=0.05, ret=0.0), with_k1=False, maxlen=24, with_repo=True,
                need=lambda g: 'pratt' in g.features)
 
 
@@ -596,7 +688,7 @@ def cases_c16(ck, it, n):
 def check_C16(work, args):
     tree_check(work, 'C16', oracles.make_oracle_c16(),
                'skipped tokens are transparent: K3 correspondence + pairwise comparison of parses with and without trivia',
-               gen_opts=dict(skip=1.0), cases_fn=cases_c16, with_k1=True)
+               gen_opts=dict(skip=1.0), cases_fn=cases_c16, with_k1=True, with_repo=True)
 
 
 # ------------------------------------------------------------------ C19 (driver)
